@@ -11,7 +11,14 @@ EXTRA = {"c01-b-sob-reach": ["C04"], "c02-a-repeat-step-once": ["C16"], "c02-b-l
          "c16-b-link-offset-prev-only": ["C02"], "c03-a-rmul-const": ["C05"], "c03-b-wait-dict-coeffs": ["C09"], "c05-b-poly-const-unscaled": ["C03"],
          "c09-a-sub-sign-slip": ["C03", "C12"], "c09-b-nested-poly-unscaled": ["C03"], "c12-a-skip-closure-addr-param": ["C02"], "c08-b-lshift-on-deferred": ["C05"],
          "c10-a-caret-literal-sign": ["C05"], "c05-a-caret-r-short": ["C15"], "c15-b-caret-right-justified": ["C05"], "c14-b-ascii-shortcut": ["C06"],
-         "c01-a-shared-operand-state": ["C04"], "c04-b-dot-shifted": ["C01"], "c17-a-expandtabs": [], "c18-a-depth-leak-no-finally": ["C08"]}
+         "c01-a-shared-operand-state": ["C04"], "c04-b-dot-shifted": ["C01"], "c17-a-expandtabs": [], "c18-a-depth-leak-no-finally": ["C08"],
+         # second wave
+         "c01-c-operand-encoding-memoised": ["C16", "C04"], "c02-c-const-term-unscaled": ["C05", "C03", "C04"], "c03-d-compiled-flag-in-block": ["C11"],
+         "c04-c-const-term-unscaled": ["C05", "C03"], "c04-d-repeat-accumulated-step": ["C16", "C02"], "c05-c-caret-literal-sign": ["C10"], "c05-d-bracket-memoised": ["C16"],
+         "c06-d-bk-translate-fastpath": ["C14"], "c08-d-skip-closure-inlined": ["C12", "C02"], "c09-c-coeff-overwritten": ["C04"], "c09-d-distance-fastpath": ["C04"],
+         "c10-c-own-names-case": ["C11"], "c10-d-hoist-named-registers-only": ["C01"], "c11-d-compiled-flag-on-link-base": ["C03"], "c12-c-const-term-unscaled": ["C05", "C03"],
+         "c13-c-include-parsed-under-relative-name": ["C17"], "c14-d-ascii-chunk-memo": ["C06"], "c15-c-angle-code-cached": ["C16"], "c15-d-caret-r-no-percent": ["C05"],
+         "c16-c-bracket-hides-dot": ["C05"], "c16-d-once-path-not-normalised": ["C18"], "c18-c-parse-lru-cache": ["C08"], "c19-c-sections-per-run": [], "c06-c-ascii-size-hint-chars": ["C02"]}
 
 
 def sh(cmd, **kw):
